@@ -272,6 +272,7 @@ C14V(r) ==
   ELSE FirstFail(<<
     <<"each-line-contributes-to-exactly-one-kind", r.got[1] = Want("k1") /\ r.got[2] = Want("k2") /\ r.got[3] = Want("k3")>>,
     <<"each-unparsable-line-reported-once-naming-it", Len(r.warn) = Cardinality(Junk) /\ RangeOf(r.warn) = Junk>>,
+    <<"a-claimed-line-is-not-also-reported-as-unparsable", r.bogus = 0>>,
     <<"claimed-plus-reported-equals-body-lines", Len(r.got[1]) + Len(r.got[2]) + Len(r.got[3]) + Len(r.warn) = n>>,
     <<"unparsable-lines-leave-every-parsed-event-unchanged", r.clean = r.dirty>>
   >>)
